@@ -9,8 +9,24 @@
 (*   urf   = a task with the user-role flag exists (collectionNames.extraInfos) *)
 (*   and the stored task infos.  One action per API call (each runs the     *)
 (*   book-keeping part under collectionNames.Lock).  Both multisets are     *)
-(*   modelled as functions name -> count because lo.Without removes ALL     *)
-(*   occurrences of a name.                                                 *)
+(*   modelled as functions name -> count (one entry per task that implies   *)
+(*   the name: withoutOnce takes back one occurrence).                      *)
+(* Requests in flight (MaxFlight > 0): Create is not one critical section.  *)
+(*   It is split where the code leaves the collectionNames lock and calls   *)
+(*   the meta store:                                                        *)
+(*     Begin   check + reserve under the lock (checkDuplicateCollection);   *)
+(*             a duplicate is rejected here, otherwise the request is in    *)
+(*             flight: its names / exclusions / flag are in the book, no    *)
+(*             task exists yet (the goroutine is about to read the store)   *)
+(*     Advance (reserved) store calls 1..3: task count, position, task put  *)
+(*             - one of them fails or the limit is reached: the revert     *)
+(*             takes back the reservation, the request returns - or the    *)
+(*             task is stored                                               *)
+(*     Advance (stored) startInternal, store calls 4..6: a failure deletes *)
+(*             the task again (delete reverts the book), else "ok"          *)
+(*   Other requests (atomic create / delete, Begin / Advance of a second    *)
+(*   request) run between these sections.  fl holds the requests in flight  *)
+(*   with what their revert closure captured.                               *)
 (* Deviation switches (TRUE = repaired, FALSE = the code as built):         *)
 (*   PartialOverlapChecked  "*.c" against "d.*" (neither contains the other)*)
 (*                          is detected as a duplicate                      *)
@@ -20,8 +36,18 @@
 (*                          failed create                                   *)
 (*   ReloadOrsUserRole      ReloadTask ORs the flag instead of keeping the  *)
 (*                          one of the task loaded last                     *)
+(* Negative control (a defect class the code does not have, MUST violate):  *)
+(*   RevertBySnapshot       the revert of a failed create puts back the     *)
+(*                          target's book-keeping as it was before the      *)
+(*                          request instead of taking back the request's    *)
+(*                          own entries: entries of requests admitted in    *)
+(*                          between are lost (TaskBook_RevertBySnapshot.cfg)*)
 (* Contract part: Exclusive, SelectsExactly, BookImplied, RejectIsNoop      *)
 (* (PathsAgree concerns two Go functions and is checked on traces only).    *)
+(* The statement speaks about accepted tasks and about the book-keeping     *)
+(* AFTER delete / failed create / restart: the three state clauses are      *)
+(* judged at quiescent points (no request in flight), RejectIsNoop at the   *)
+(* rejected call itself.                                                    *)
 EXTENDS Integers, Sequences, FiniteSets, TLC, Json
 
 CONSTANTS DBs, Colls,       \* database / collection parts of specifications, "*" = wildcard
@@ -39,7 +65,9 @@ CONSTANTS DBs, Colls,       \* database / collection parts of specifications, "*
           WithRestart,
           SimPrint,         \* TRUE: print the plan from a final action (TLC -simulate evaluates invariants on ALL successors)
           DelW, RestartW,   \* multiplicity of the delete / restart successors (only to balance TLC -simulate, 1 otherwise)
-          PartialOverlapChecked, ExcludeKept, UserRoleReverted, ReloadOrsUserRole
+          PartialOverlapChecked, ExcludeKept, UserRoleReverted, ReloadOrsUserRole,
+          MaxFlight,        \* 0 = every request runs alone; k > 0 = up to k create requests in flight (Begin / Advance)
+          RevertBySnapshot  \* negative control, see above (FALSE = the code)
 
 Names   == [db : DBs, coll : Colls]
 Univ    == [db : UDBs, coll : UColls]
@@ -59,21 +87,31 @@ VARIABLES task,    \* Ids -> stored task info (+ ghost claimed: pairs named by o
           data,    \* Targets -> [Names -> Nat]
           excl,    \* Targets -> [Names -> Nat]
           urf,     \* Targets -> BOOLEAN
-          res,     \* ghost: result class of the last call
+          fl,      \* Ids -> create request in flight (pc "idle" = none): what checkDuplicateCollection reserved and the revert closure holds
+          res,     \* ghost: result class of the last call ("run" = the request is still in flight)
           pbook,   \* ghost: <<task, data, excl, urf>> before the last call
           hist
 
-vars == <<task, data, excl, urf, res, pbook, hist>>
-view == <<task, data, excl, urf, res, pbook, Len(hist)>>
+vars == <<task, data, excl, urf, fl, res, pbook, hist>>
+\* the VIEW hides the history and what no later step reads: pbook is read only by RejectIsNoop in the state after a
+\* rejected call, the snapshot of a request in flight only by the RevertBySnapshot control
+view == <<task, data, excl, urf, [i \in DOMAIN fl |-> IF RevertBySnapshot THEN fl[i] ELSE [fl[i] EXCEPT !.snap = FALSE]],
+          res, IF res = "client" THEN pbook ELSE <<>>, Len(hist)>>
 
 Zero == [n \in Names |-> 0]
 Supp(b) == {n \in Names : b[n] > 0}
+Dec(x) == IF x > 0 THEN x - 1 ELSE 0
 Live(t) == {i \in Ids : task[i].live /\ task[i].tgt = t}
 AllLive == {i \in Ids : task[i].live}
+NoReq == [pc |-> "idle", tgt |-> "", name |-> AllStar, ur |-> FALSE, excl |-> {}, f |-> 0, claimed |-> {},
+          snap |-> [data |-> Zero, excl |-> Zero, urf |-> FALSE]]
+InFlight == {i \in Ids : fl[i].pc # "idle"}
+Quiet == InFlight = {}
 
 Init == /\ task = [i \in Ids |-> NoTask]
         /\ data = [t \in Targets |-> Zero] /\ excl = [t \in Targets |-> Zero]
         /\ urf = [t \in Targets |-> FALSE]
+        /\ fl = [i \in Ids |-> NoReq]
         /\ res = "none" /\ pbook = <<>> /\ hist = <<>>
 
 Book == <<task, data, excl, urf>>
@@ -87,21 +125,29 @@ Named(tk) == {p \in Univ : Covers(tk.name, p)}
 (* ------------------------------ design actions --------------------------- *)
 Reject == /\ res' = "client" /\ pbook' = Book /\ UNCHANGED <<task, data, excl, urf>>
 
-ImpliedExcl(tk, t) == [e \in Names |-> IF \E i \in Ids : tk[i].live /\ tk[i].tgt = t /\ e \in tk[i].excl THEN 1 ELSE 0]
+ImpliedExcl(tk, t) == [e \in Names |-> Cardinality({i \in Ids : tk[i].live /\ tk[i].tgt = t /\ e \in tk[i].excl})]
 ImpliedUR(tk, t)   == \E i \in Ids : tk[i].live /\ tk[i].tgt = t /\ tk[i].ur
 
+\* checkDuplicateCollection: the duplicate test, the mapping test, the exclusions of an admitted request
+Dup(t, n, ur) == LET D == data[t] X == excl[t]
+                 IN \/ urf[t] /\ ur
+                    \/ D[n] > 0
+                    \/ n # AllStar /\ \E e \in Supp(D) : Covers(e, n) /\ Star(e) /\ X[n] = 0
+                    \/ PartialOverlapChecked /\ \E e \in Supp(D) : Partial(e, n)
+BadMap(n, mk) == mk = "foreign" /\ ~Covers(n, Foreign)
+ExclOf(t, n)  == {e \in Supp(data[t]) : Covers(n, e)}
+\* ghost: pairs named by the specifications of the other tasks of the target - stored, or admitted and still in flight -
+\* at the moment a request is admitted
+ClaimedNow(t) == {p \in Univ : \/ \E j \in Live(t) : Covers(task[j].name, p)
+                               \/ \E j \in InFlight : fl[j].tgt = t /\ Covers(fl[j].name, p)}
+
+\* a create request that runs alone (check, store calls, start and - on failure - revert without any other request in between)
 Create(t, n, mk, ur, f) ==
-    LET D == data[t]
-        X == excl[t]
+    LET X == excl[t]
         id == Len(hist) + 1
-        dup == \/ urf[t] /\ ur
-               \/ D[n] > 0
-               \/ n # AllStar /\ \E e \in Supp(D) : Covers(e, n) /\ Star(e) /\ X[n] = 0
-               \/ PartialOverlapChecked /\ \E e \in Supp(D) : Partial(e, n)
-        badMap == mk = "foreign" /\ ~Covers(n, Foreign)
-        E == {e \in Supp(D) : Covers(n, e)}
+        E == ExclOf(t, n)
         full == Cardinality(AllLive) >= MaxLive
-    IN IF dup \/ badMap THEN Reject
+    IN IF Dup(t, n, ur) \/ BadMap(n, mk) THEN Reject
        ELSE \/ /\ f # 0 \/ full             \* failed create: store fault, entity failure or task limit
                /\ excl' = [excl EXCEPT ![t] = IF ExcludeKept THEN X
                                                 ELSE [e \in Names |-> IF e \in E THEN 0 ELSE X[e]]]
@@ -112,23 +158,72 @@ Create(t, n, mk, ur, f) ==
                /\ excl' = [excl EXCEPT ![t] = [e \in Names |-> IF e \in E THEN X[e] + 1 ELSE X[e]]]
                /\ urf' = [urf EXCEPT ![t] = @ \/ ur]
                /\ task' = [task EXCEPT ![id] = [live |-> TRUE, name |-> n, excl |-> E, ur |-> ur, tgt |-> t,
-                              claimed |-> {p \in Univ : \E j \in Live(t) : Covers(task[j].name, p)}]]
+                              claimed |-> ClaimedNow(t)]]
                /\ res' = "ok" /\ pbook' = Book
 
+\* the same request section by section.  Begin: validation, checkDuplicateCollection (check + reserve under the lock), the
+\* revert closure is built; the request then leaves the lock and is about to make its first store call.
+Begin(t, n, mk, ur, f) ==
+    LET X == excl[t]
+        id == Len(hist) + 1
+        E == ExclOf(t, n)
+    IN /\ MaxFlight > 0 /\ Cardinality(InFlight) < MaxFlight
+       /\ IF Dup(t, n, ur) \/ BadMap(n, mk) THEN Reject /\ UNCHANGED fl
+          ELSE /\ data' = [data EXCEPT ![t][n] = @ + 1]
+               /\ excl' = [excl EXCEPT ![t] = [e \in Names |-> IF e \in E THEN X[e] + 1 ELSE X[e]]]
+               /\ urf' = [urf EXCEPT ![t] = @ \/ ur]
+               /\ fl' = [fl EXCEPT ![id] = [pc |-> "reserved", tgt |-> t, name |-> n, ur |-> ur, excl |-> E, f |-> f,
+                                            claimed |-> ClaimedNow(t),
+                                            snap |-> [data |-> data[t], excl |-> X, urf |-> urf[t]]]]
+               /\ res' = "run" /\ pbook' = Book /\ UNCHANGED task
+
+\* the book-keeping part of the revert of request r (Create's revertCollectionNames; delete() does the same for the task it removes)
+RevertOwn(r) ==
+    LET t == r.tgt
+        X == excl[t]
+    IN IF RevertBySnapshot
+       THEN /\ data' = [data EXCEPT ![t] = r.snap.data]
+            /\ excl' = [excl EXCEPT ![t] = r.snap.excl]
+            /\ urf'  = [urf EXCEPT ![t] = r.snap.urf]
+       ELSE /\ data' = [data EXCEPT ![t][r.name] = Dec(@)]
+            /\ excl' = [excl EXCEPT ![t] = [e \in Names |-> IF e \in r.excl THEN (IF ExcludeKept THEN Dec(X[e]) ELSE 0) ELSE X[e]]]
+            /\ urf'  = [urf EXCEPT ![t] = IF UserRoleReverted /\ r.ur THEN FALSE ELSE @]
+
+\* Advance: the next section of a request in flight - store calls 1..3 (task count / limit, position put, task put), then
+\* startInternal with store calls 4..6; a failing start deletes the task again, and delete reverts the book-keeping.
+Advance(i) ==
+    LET r == fl[i]
+        full == Cardinality(AllLive) >= MaxLive
+    IN /\ r.pc # "idle" /\ pbook' = Book
+       /\ \/ /\ r.pc = "reserved" /\ (r.f \in 1..3 \/ full)
+             /\ RevertOwn(r) /\ UNCHANGED task
+             /\ fl' = [fl EXCEPT ![i] = NoReq] /\ res' = "server"
+          \/ /\ r.pc = "reserved" /\ ~(r.f \in 1..3 \/ full)
+             /\ task' = [task EXCEPT ![i] = [live |-> TRUE, name |-> r.name, excl |-> r.excl, ur |-> r.ur, tgt |-> r.tgt,
+                                             claimed |-> r.claimed]]
+             /\ fl' = [fl EXCEPT ![i].pc = "stored"] /\ res' = "run" /\ UNCHANGED <<data, excl, urf>>
+          \/ /\ r.pc = "stored" /\ r.f \in 4..6
+             /\ task' = [task EXCEPT ![i] = NoTask] /\ RevertOwn(r)
+             /\ fl' = [fl EXCEPT ![i] = NoReq] /\ res' = "server"
+          \/ /\ r.pc = "stored" /\ r.f \notin 4..6
+             /\ fl' = [fl EXCEPT ![i] = NoReq] /\ res' = "ok" /\ UNCHANGED <<task, data, excl, urf>>
+
+\* delete of a task whose create has returned (it may run while a create of another task is in flight)
 Delete(i, f) ==
-    /\ task[i].live
+    /\ task[i].live /\ i \notin InFlight
     /\ \/ /\ f # 0 /\ res' = "server" /\ pbook' = Book /\ UNCHANGED <<task, data, excl, urf>>
        \/ LET t == task[i].tgt
-              tk == [task EXCEPT ![i] = NoTask]
-          IN /\ task' = tk
+              X == excl[t]
+          IN /\ task' = [task EXCEPT ![i] = NoTask]
              /\ data' = [data EXCEPT ![t][task[i].name] = 0]
-             /\ excl' = [excl EXCEPT ![t] = IF ExcludeKept THEN ImpliedExcl(tk, t)
-                                              ELSE [e \in Names |-> IF e \in task[i].excl THEN 0 ELSE @[e]]]
-             /\ urf' = [urf EXCEPT ![t] = IF UserRoleReverted THEN ImpliedUR(tk, t) ELSE @]
+             /\ excl' = [excl EXCEPT ![t] = [e \in Names |-> IF e \in task[i].excl THEN (IF ExcludeKept THEN Dec(X[e]) ELSE 0) ELSE X[e]]]
+             /\ urf' = [urf EXCEPT ![t] = IF UserRoleReverted /\ task[i].ur THEN FALSE ELSE @]
              /\ res' = "ok" /\ pbook' = Book
 
 MaxOf(S) == CHOOSE x \in S : \A y \in S : y <= x
+\* the process is replaced at a quiescent point (a crash with requests in flight is not part of C10's histories)
 Restart ==
+    /\ Quiet
     /\ data' = [t \in Targets |-> [n \in Names |-> Cardinality({i \in Live(t) : task[i].name = n})]]
     /\ excl' = [t \in Targets |-> ImpliedExcl(task, t)]
     /\ urf' = [t \in Targets |-> IF ReloadOrsUserRole THEN ImpliedUR(task, t)
@@ -139,20 +234,26 @@ Step ==
     /\ Len(hist) < MaxOps
     /\ \/ \E t \in Targets, n \in Names, mk \in MapKinds, ur \in URs, na \in NoAutos, f \in Faults :
          \E v \in (IF n.db = "default" THEN Vias ELSE {"dbc"}) :
-            /\ Create(t, n, mk, ur, f)
-            /\ hist' = Append(hist, [op |-> "create", db |-> n.db, coll |-> n.coll, via |-> v, map |-> mk,
-                                     ur |-> ur, noauto |-> na, fault |-> f, tgt |-> t])
+            \/ /\ Create(t, n, mk, ur, f) /\ UNCHANGED fl
+               /\ hist' = Append(hist, [op |-> "create", db |-> n.db, coll |-> n.coll, via |-> v, map |-> mk,
+                                        ur |-> ur, noauto |-> na, fault |-> f, tgt |-> t])
+            \/ /\ Begin(t, n, mk, ur, f)
+               /\ hist' = Append(hist, [op |-> "begin", db |-> n.db, coll |-> n.coll, via |-> v, map |-> mk,
+                                        ur |-> ur, noauto |-> na, fault |-> f, tgt |-> t])
+       \/ \E i \in InFlight :
+            /\ Advance(i)
+            /\ hist' = Append(hist, [op |-> "step", req |-> i])
        \/ \E i \in Ids, f \in DelFaults, w \in 1..DelW :
-            /\ Delete(i, f)
+            /\ Delete(i, f) /\ UNCHANGED fl
             /\ hist' = Append(hist, [op |-> "delete", task |-> i, fault |-> f, w |-> w])
        \/ \E w \in 1..RestartW :
-            /\ WithRestart /\ Restart
+            /\ WithRestart /\ Restart /\ UNCHANGED fl
             /\ hist' = Append(hist, [op |-> "restart", w |-> w])
 
 \* simulation only: one successor of a complete history, generated (and printed) only when the walk is there
 Finish == /\ SimPrint /\ Len(hist) = MaxOps /\ res # "done"
           /\ PrintT("PLAN " \o ToJson(hist))
-          /\ res' = "done" /\ UNCHANGED <<task, data, excl, urf, pbook, hist>>
+          /\ res' = "done" /\ UNCHANGED <<task, data, excl, urf, fl, pbook, hist>>
 
 Next == Step \/ Finish
 
@@ -161,7 +262,7 @@ Spec == Init /\ [][Next]_vars
 (* ------------------------------ contract (what C10 demands) -------------- *)
 \* every concrete (database, collection) is selected by at most one task of a target
 Exclusive == \A t \in Targets, p \in Univ : Cardinality({i \in Live(t) : p \in Sel(i)}) <= 1
-\* a task selects what its specification names minus what other tasks' specifications named when it was created
+\* a task selects what its specification names minus what other tasks' specifications named when it was admitted
 SelectsExactly == \A i \in AllLive : Named(task[i]) \ task[i].claimed \subseteq Sel(i) /\ Sel(i) \subseteq Named(task[i])
 \* the book-keeping (as far as it decides later requests) is what the remaining tasks imply
 ImpliedNames(t) == {task[i].name : i \in Live(t)}
@@ -172,7 +273,8 @@ BookImplied == \A t \in Targets :
 \* a rejected request changes nothing
 RejectIsNoop == res = "client" => Book = pbook
 
-Contract == Exclusive /\ SelectsExactly /\ BookImplied /\ RejectIsNoop
+\* the state clauses are judged when every request has returned (MaxFlight = 0: always)
+Contract == RejectIsNoop /\ (Quiet => Exclusive /\ SelectsExactly /\ BookImplied)
 
 TypeOK == /\ \A t \in Targets : \A n \in Names : data[t][n] \in 0..MaxOps /\ excl[t][n] \in 0..(MaxOps * MaxOps)
           /\ \A i \in Ids : task[i].excl \subseteq Names
